@@ -371,3 +371,21 @@ var propC02 = &h.Prop[C02Case]{ID: "C02", Rule: ruleC02, Gen: genC02, Check: che
 
 func TestC02(t *testing.T)       { propC02.Search(t) }
 func TestC02Replay(t *testing.T) { propC02.Replay(t) }
+
+// TestC02Grid: the accuracy of the enumerated huge-gap sums (see c01HugeGapCases).
+func TestC02Grid(t *testing.T) {
+	defer h.WriteStats("C02")
+	n := 0
+	for _, a := range c01HugeGapCases() {
+		a := a
+		c := C02Case{Op: "arith", A: &a, P: a.P, M: a.M}
+		o := &h.Obs{}
+		o.Label("huge-gap")
+		if f := propC02.SafeCheck(c, o); f != nil {
+			h.ReportGridFail(t, "C02", f, mustJSON(c))
+		}
+		h.RecordGrid("C02", o, c)
+		n++
+	}
+	h.AddExtra("C02", "huge_gap_cases_enumerated", n)
+}
